@@ -118,8 +118,9 @@ func genC05(thorough bool) func(t *rapid.T) c05Scenario {
 			sc.Extra = append(sc.Extra, extras[rapid.IntRange(0, len(extras)-1).Draw(t, "extra")])
 		}
 		sc.Filter = rapid.SampledFrom([]string{"", "", "json|xml", "image|text"}).Draw(t, "filter")
-		sc.GzipLevel = rapid.IntRange(0, 9).Draw(t, "gzipLevel")
-		sc.BrLevel = rapid.IntRange(0, 11).Draw(t, "brLevel")
+		// any unsigned level is a legal configuration; out-of-range ones fall back to the defaults
+		sc.GzipLevel = rapid.SampledFrom([]int{0, 1, 2, 3, 4, 5, 6, 7, 8, 9, 9, 10, 11, 12, 100}).Draw(t, "gzipLevel")
+		sc.BrLevel = rapid.SampledFrom([]int{0, 1, 2, 3, 4, 5, 6, 7, 8, 9, 10, 11, 11, 12, 100}).Draw(t, "brLevel")
 		sc.Store = rapid.IntRange(0, 2).Draw(t, "store") == 0
 		sc.UpstreamAE = rapid.Bool().Draw(t, "upstreamAE")
 		return sc
